@@ -148,9 +148,143 @@ fn loop_head_programs() -> Vec<(String, Program)> {
     out
 }
 
+/// assignment (plain and compound) to a PARAMETER: of the enclosing function / lambda from inside a nested lambda or
+/// task (must be rejected with the captured-variable diagnostic; `read` = the parameter is also read there), and to the
+/// function's / lambda's own parameter (control: accepted, compiles, prints the expected value).  Built from the
+/// generator AST so that the checker model (`loopctx`) sees the same program.
+fn param_assign_programs() -> Vec<(String, Program, Option<String>)> {
+    let b = |x: Expr| Box::new(x);
+    let var = |x: &str| Expr::Var(x.to_string());
+    let mut out = vec![];
+    for (opn, op) in [("set", AsgOp::Set), ("add", AsgOp::Add), ("sub", AsgOp::Sub), ("mul", AsgOp::Mul), ("div", AsgOp::Div), ("mod", AsgOp::Mod)] {
+        for read in [false, true] {
+            let rhs = if read { Expr::Bin(BinOp::Add, b(var("p")), b(var("bb"))) } else { var("bb") };
+            let inner_body = |tail: Expr| Expr::Block(vec![Stmt::Assign("p".into(), op, rhs.clone()), Stmt::Expr(tail)]);
+            let inner_lam = Expr::Lam(vec![("bb".into(), Ty::Int)], b(inner_body(var("bb"))));
+            let outer_body = vec![
+                Stmt::Let(false, Pat::Bind("g".into()), None, inner_lam.clone()),
+                Stmt::Expr(Expr::Bin(BinOp::Add, b(Expr::CallV(b(var("g")), vec![Expr::Int(1)])), b(var("p")))),
+            ];
+            let mk = |fns: Vec<FnDef>, main: Vec<Stmt>| Program { structs: vec![], enums: vec![], fns, main, final_ty: None };
+            // enclosing function's parameter, from a lambda
+            out.push((
+                format!("fn-param-from-lambda/{opn}/{}", if read { "read" } else { "write-only" }),
+                mk(
+                    vec![FnDef { name: "fnh".into(), params: vec![("p".into(), Ty::Int)], ret: Ty::Int, body: Expr::Block(outer_body.clone()) }],
+                    vec![Stmt::Expr(Expr::Print(b(Expr::Call("fnh".into(), vec![Expr::Int(2)]))))],
+                ),
+                None,
+            ));
+            // enclosing lambda's parameter, from an inner lambda
+            out.push((
+                format!("lambda-param-from-lambda/{opn}/{}", if read { "read" } else { "write-only" }),
+                mk(
+                    vec![],
+                    vec![
+                        Stmt::Let(false, Pat::Bind("f".into()), None, Expr::Lam(vec![("p".into(), Ty::Int)], b(Expr::Block(outer_body.clone())))),
+                        Stmt::Expr(Expr::Print(b(Expr::CallV(b(var("f")), vec![Expr::Int(2)])))),
+                    ],
+                ),
+                None,
+            ));
+            // enclosing function's parameter, from a task
+            let task_rhs = if read { Expr::Bin(BinOp::Add, b(var("p")), b(Expr::Int(3))) } else { Expr::Int(3) };
+            out.push((
+                format!("fn-param-from-task/{opn}/{}", if read { "read" } else { "write-only" }),
+                mk(
+                    vec![FnDef {
+                        name: "fnh".into(),
+                        params: vec![("p".into(), Ty::Int)],
+                        ret: Ty::Int,
+                        body: Expr::Block(vec![
+                            Stmt::Expr(Expr::Task(b(Expr::Block(vec![Stmt::Assign("p".into(), op, task_rhs)])))),
+                            Stmt::Expr(var("p")),
+                        ]),
+                    }],
+                    vec![Stmt::Expr(Expr::Print(b(Expr::Call("fnh".into(), vec![Expr::Int(2)]))))],
+                ),
+                None,
+            ));
+        }
+        // controls: a function / lambda assigns its OWN parameter: p0 = 7, rhs = 2
+        let expect = match op {
+            AsgOp::Set => 2,
+            AsgOp::Add => 9,
+            AsgOp::Sub => 5,
+            AsgOp::Mul => 14,
+            AsgOp::Div => 3,
+            AsgOp::Mod => 1,
+        };
+        let own_body = Expr::Block(vec![Stmt::Assign("p".into(), op, Expr::Int(2)), Stmt::Expr(var("p"))]);
+        out.push((
+            format!("own-fn-param/{opn}"),
+            Program {
+                structs: vec![],
+                enums: vec![],
+                fns: vec![FnDef { name: "fnh".into(), params: vec![("p".into(), Ty::Int)], ret: Ty::Int, body: own_body.clone() }],
+                main: vec![Stmt::Expr(Expr::Print(b(Expr::Call("fnh".into(), vec![Expr::Int(7)]))))],
+                final_ty: None,
+            },
+            Some(format!("{expect}\n")),
+        ));
+        out.push((
+            format!("own-lambda-param/{opn}"),
+            Program {
+                structs: vec![],
+                enums: vec![],
+                fns: vec![],
+                main: vec![
+                    Stmt::Let(false, Pat::Bind("f".into()), None, Expr::Lam(vec![("p".into(), Ty::Int)], b(own_body))),
+                    Stmt::Expr(Expr::Print(b(Expr::CallV(b(var("f")), vec![Expr::Int(7)])))),
+                ],
+                final_ty: None,
+            },
+            Some(format!("{expect}\n")),
+        ));
+    }
+    out
+}
+
 fn main() {
     let mut ctx = Ctx::from_env("C03");
     let base = probe_shapes(&mut ctx);
+
+    // assignment to parameters: captured => diagnostic; own => accepted, compiles and computes the right value
+    let pa = param_assign_programs();
+    let pv = par_map(&pa, |(_, p, expect)| {
+        let src = program_src(p);
+        let v = verdict(&src);
+        let out = if expect.is_some() && v == Verdict::Compiled { Some(run_program(&src)) } else { None };
+        (v, out)
+    });
+    for ((name, p, expect), (v, out)) in pa.iter().zip(pv) {
+        let kind = name.split('/').next().unwrap_or("");
+        let src = program_src(p);
+        match (expect, &v) {
+            (None, Verdict::Rejected) => {
+                ctx.count(&format!("param-assign:{kind}:rejected"));
+                ctx.case(format!("{} #{name}", loopctx_request(p)), "reject");
+            }
+            (None, _) => {
+                ctx.count(&format!("param-assign:{kind}:NOT-REJECTED"));
+                ctx.spec_fail(format!("{name}: assignment to a captured parameter must be rejected with a diagnostic, got {v:?}\n{src}"));
+            }
+            (Some(e), Verdict::Compiled) => {
+                let r = out.unwrap();
+                if r.outcome == Outcome::Done && &r.out == e {
+                    ctx.count(&format!("param-assign:{kind}:accepted-works"));
+                    ctx.case(format!("{} #{name}", loopctx_request(p)), "accept");
+                } else {
+                    ctx.count(&format!("param-assign:{kind}:WRONG"));
+                    ctx.spec_fail(format!("{name}: assignment to the function's own parameter: outcome {} output {:?}, expected {:?}\n{src}", r.outcome.tag(), r.out, e));
+                }
+            }
+            (Some(_), _) => {
+                ctx.count(&format!("param-assign:{kind}:NOT-ACCEPTED"));
+                ctx.spec_fail(format!("{name}: assignment to the function's own parameter must be accepted and compile, got {v:?}\n{src}"));
+            }
+        }
+    }
 
     // loop heads: whatever the checker accepts must compile, what it rejects must be a diagnostic; the verdict
     // itself is compared with the checker model
